@@ -217,28 +217,6 @@ Proof.
   intros (Ha & Hp & Ht & Hp1 & Ht1 & Hl). unfold multitask_coherent. rewrite Ha, (RCoh_b _ Hp), (RCoh_b _ Ht), Hp1, Ht1, Hl. reflexivity.
 Qed.
 
-Lemma multitask_assign_MCoh k hp : MCoh k -> MCoh (fst (multitask_assign k hp)).
-Proof.
-  intros Hk. pose proof Hk as (Ha & Hp & Ht & Hp1 & Ht1 & Hl). unfold multitask_assign. destruct hp as [|a rest]; [exact Hk|].
-  destruct (entry_ok a) eqn:Ea; [|exact Hk].
-  destruct (radial_set (one :: removelast rest)) as [p|] eqn:Ep.
-  - destruct (component_set _ _ Ep) as (Cp & Cp1 & _).
-    destruct (radial_set [one; last rest NaN]) as [t|] eqn:Et.
-    + destruct (component_set _ _ Et) as (Ct & Ct1 & Ctl). cbn [fst]. unfold MCoh. cbn [m_alpha m_phys m_task]. rewrite Ctl. repeat split; assumption || reflexivity || apply Cp || apply Ct.
-    + cbn [fst]. unfold MCoh. cbn [m_alpha m_phys m_task]. repeat split; assumption || apply Cp || apply Ht.
-  - cbn [fst]. unfold MCoh. cbn [m_alpha m_phys m_task]. repeat split; assumption || apply Hp || apply Ht.
-Qed.
-
-Lemma multitask_assign_vs_set k hp :
-  match multitask_set hp with
-  | Some k' => multitask_assign k hp = (k', true)
-  | None => snd (multitask_assign k hp) = false
-  end.
-Proof.
-  unfold multitask_set, multitask_assign. destruct hp as [|a rest]; [reflexivity|]. destruct (entry_ok a); [|reflexivity].
-  destruct (radial_set (one :: removelast rest)); [|reflexivity]. destruct (radial_set [one; last rest NaN]); reflexivity.
-Qed.
-
 Lemma multitask_set_MCoh hp k : multitask_set hp = Some k -> MCoh k.
 Proof.
   unfold multitask_set. destruct hp as [|a rest]; [discriminate|]. destruct (entry_ok a) eqn:Ea; [|discriminate].
@@ -248,39 +226,31 @@ Proof.
   unfold MCoh. cbn [m_alpha m_phys m_task]. rewrite Ctl. repeat split; assumption || reflexivity || apply Cp || apply Ct.
 Qed.
 
+Lemma multitask_assign_MCoh k hp : MCoh k -> MCoh (fst (multitask_assign k hp)).
+Proof.
+  intros Hk. unfold multitask_assign. destruct (multitask_set hp) as [k'|] eqn:E; cbn [fst]; [exact (multitask_set_MCoh _ _ E)|exact Hk].
+Qed.
+
 Lemma multitask_set_none_iff hp : (2 <= length hp)%nat -> (multitask_set hp = None <-> valid hp = false).
 Proof.
   intros Hl. rewrite (hyper_rejects_multitask hp Hl). rewrite <- radial_set_none_iff. symmetry. apply hyper_rejects. destruct hp; [cbn in Hl; lia|discriminate].
 Qed.
 
-(* an assignment on a live tensor kernel: accepted iff every entry is admissible; accepted -> the vector reads back *)
+(* an assignment on a live tensor kernel: accepted iff every entry is admissible; accepted -> the vector reads back; rejected - for the
+   process variance, a physical length scale or the task length scale - NOTHING changed *)
 Theorem multitask_assign_spec k hp : (2 <= length hp)%nat ->
-  snd (multitask_assign k hp) = valid hp /\ (valid hp = true -> multitask_get (fst (multitask_assign k hp)) = hp).
+  snd (multitask_assign k hp) = valid hp /\ (valid hp = true -> multitask_get (fst (multitask_assign k hp)) = hp) /\
+  (valid hp = false -> fst (multitask_assign k hp) = k).
 Proof.
-  intros Hl. pose proof (multitask_assign_vs_set k hp) as H. pose proof (multitask_set_none_iff hp Hl) as Hn.
-  destruct (multitask_set hp) as [k'|] eqn:E.
-  - rewrite H. cbn [fst snd]. assert (V : valid hp = true). { destruct (valid hp); [reflexivity|]. destruct Hn as [_ Hn]. specialize (Hn eq_refl). discriminate. }
-    split; [symmetry; exact V|intros _; exact (hyper_roundtrip_multitask hp k' E Hl)].
-  - rewrite H. destruct Hn as [Hn _]. rewrite (Hn eq_refl). split; [reflexivity|discriminate].
+  intros Hl. pose proof (multitask_set_none_iff hp Hl) as Hn. unfold multitask_assign.
+  destruct (multitask_set hp) as [k'|] eqn:E; cbn [fst snd].
+  - assert (V : valid hp = true). { destruct (valid hp); [reflexivity|]. destruct Hn as [_ Hn]. specialize (Hn eq_refl). discriminate. }
+    split; [symmetry; exact V|split; [intros _; exact (hyper_roundtrip_multitask hp k' E Hl)|congruence]].
+  - destruct Hn as [Hn _]. rewrite (Hn eq_refl). split; [reflexivity|split; [discriminate|reflexivity]].
 Qed.
 
-(* a rejected assignment whose PROCESS VARIANCE is the inadmissible entry changes nothing ... *)
-Theorem multitask_rejected_bad_alpha_unchanged k a rest : entry_ok a = false -> multitask_assign k (a :: rest) = (k, false).
-Proof. intros H. unfold multitask_assign. rewrite H. reflexivity. Qed.
-
-(* ... but a vector rejected for one of its length scales has by then been taken IN PART (process variance; physical length scales when the
-   task length scale is the inadmissible one): "a rejected assignment leaves the object unchanged" is false for the tensor kernel *)
-Theorem multitask_rejected_unchanged_refuted :
-  exists k hp k', multitask_set [Fin (3#2); Fin (1#2); Fin 2; Fin (1#4)] = Some k /\ multitask_assign k hp = (k', false) /\
-                  multitask_get k' <> multitask_get k /\ multitask_get k' <> hp.
-Proof.
-  exists {| m_alpha := Fin (3#2); m_phys := {| r_hp := [one; Fin (1#2); Fin 2]; r_alpha := one; r_ls := [Fin (1#2); Fin 2] |};
-            m_task := {| r_hp := [one; Fin (1#4)]; r_alpha := one; r_ls := [Fin (1#4)] |} |}.
-  exists [Fin 3; Fin 1; Fin 1; Fin 0].
-  exists {| m_alpha := Fin 3; m_phys := {| r_hp := [one; Fin 1; Fin 1]; r_alpha := one; r_ls := [Fin 1; Fin 1] |};
-            m_task := {| r_hp := [one; Fin (1#4)]; r_alpha := one; r_ls := [Fin (1#4)] |} |}.
-  vm_compute. repeat split; intros H; discriminate H.
-Qed.
+Theorem multitask_rejected_unchanged k hp k' : multitask_assign k hp = (k', false) -> k' = k.
+Proof. unfold multitask_assign. destruct (multitask_set hp); intros H; inversion H. reflexivity. Qed.
 
 Lemma multitask_step_MCoh k o : MCoh k -> MCoh (fst (multitask_step k o)).
 Proof.
@@ -303,23 +273,28 @@ Proof.
   apply andb_true_iff in Vt. destruct Vt as [_ Vt]. rewrite Vt. reflexivity.
 Qed.
 
-Theorem multitask_model_meets_spec ops : forall k cur, MCoh k -> long_sets ops -> (cur = [] \/ cur = multitask_get k) ->
-  spec_outs false cur ops (snd (run multitask_step k ops)) = true.
+(* the getter after ANY sequence of operations: the last vector that was accepted (the constructor's if none was) *)
+Theorem multitask_run_get ops : forall k, long_sets ops -> multitask_get (fst (run multitask_step k ops)) = last_accepted (multitask_get k) ops.
 Proof.
-  induction ops as [|o r IH]; intros k cur Hk Hn Hc; [reflexivity|]. inversion Hn as [|? ? Ho Hr]; subst. rewrite run_cons. cbn [snd].
+  induction ops as [|o r IH]; intros k Hn; [reflexivity|]. inversion Hn as [|? ? Ho Hr]; subst. rewrite run_cons. cbn [fst]. rewrite (IH _ Hr).
+  destruct o as [hp| |]; cbn [last_accepted]; try reflexivity.
+  destruct (multitask_assign_spec k hp Ho) as (_ & Ha & Hu). cbn [multitask_step]. destruct (multitask_assign k hp) as [k' ok] eqn:E. cbn [fst] in *.
+  destruct (valid hp); [rewrite (Ha eq_refl)|rewrite (Hu eq_refl)]; reflexivity.
+Qed.
+
+Theorem multitask_model_meets_spec ops : forall k, MCoh k -> long_sets ops ->
+  spec_outs true (multitask_get k) ops (snd (run multitask_step k ops)) = true.
+Proof.
+  induction ops as [|o r IH]; intros k Hk Hn; [reflexivity|]. inversion Hn as [|? ? Ho Hr]; subst. rewrite run_cons. cbn [snd].
   pose proof (multitask_step_MCoh k o Hk) as Hk1. destruct (MCoh_get_valid k Hk) as (Vg & rg & Eg). destruct o as [hp| |]; cbn [multitask_step] in *.
-  - destruct (multitask_assign_spec k hp Ho) as (Hs & Ha). destruct (multitask_assign k hp) as [k' ok] eqn:E. cbn [fst snd] in *. cbn [spec_outs].
+  - destruct (multitask_assign_spec k hp Ho) as (Hs & Ha & Hu). destruct (multitask_assign k hp) as [k' ok] eqn:E. cbn [fst snd] in *. cbn [spec_outs].
     rewrite Hs. rewrite eqb_reflx. cbn [andb]. destruct (valid hp) eqn:V.
-    + apply IH; [exact Hk1|exact Hr|right; symmetry; exact (Ha eq_refl)].
-    + apply IH; [exact Hk1|exact Hr|left; reflexivity].
+    + rewrite <- (Ha eq_refl). apply IH; assumption.
+    + rewrite (Hu eq_refl) in *. apply IH; assumption.
   - cbn [fst snd spec_outs]. rewrite Vg. cbn [andb].
-    assert (M : match cur with [] => true | _ :: _ => xlist_eqb (multitask_get k) cur end = true).
-    { destruct Hc as [->| ->]; [reflexivity|]. destruct (multitask_get k); [reflexivity|apply xlist_eqb_refl]. }
-    rewrite M. cbn [andb]. apply IH; [exact Hk|exact Hr|right; reflexivity].
-  - cbn [fst snd spec_outs]. rewrite (MCoh_b _ Hk). cbn [andb].
-    assert (M : match cur with a :: _ => xeqb (m_alpha k) a | [] => true end = true).
-    { destruct Hc as [->| ->]; [reflexivity|]. rewrite Eg. apply xeqb_refl. }
-    rewrite M. cbn [andb]. apply IH; [exact Hk|exact Hr|exact Hc].
+    assert (M : match multitask_get k with [] => true | _ :: _ => xlist_eqb (multitask_get k) (multitask_get k) end = true) by (destruct (multitask_get k); [reflexivity|apply xlist_eqb_refl]).
+    rewrite M. cbn [andb]. apply IH; assumption.
+  - cbn [fst snd spec_outs]. rewrite (MCoh_b _ Hk). cbn [andb]. rewrite Eg at 1. rewrite xeqb_refl. cbn [andb]. apply IH; assumption.
 Qed.
 
 (* from construction on *)
@@ -329,10 +304,12 @@ Proof.
   intros H Hne Hn. split; [apply radial_run_coherent; [exact (radial_set_RCoh _ _ H Hne)|exact Hn]|]. rewrite radial_run_get, (radial_set_get _ _ H). reflexivity.
 Qed.
 
-Theorem multitask_life_coherent hp0 k ops : multitask_set hp0 = Some k ->
-  MCoh (fst (run multitask_step k ops)) /\ valid (multitask_get (fst (run multitask_step k ops))) = true.
+Theorem multitask_life_coherent hp0 k ops : multitask_set hp0 = Some k -> (2 <= length hp0)%nat -> long_sets ops ->
+  let k' := fst (run multitask_step k ops) in
+  MCoh k' /\ valid (multitask_get k') = true /\ multitask_get k' = last_accepted hp0 ops.
 Proof.
-  intros H. pose proof (multitask_run_coherent ops k (multitask_set_MCoh _ _ H)) as Hc. split; [exact Hc|exact (proj1 (MCoh_get_valid _ Hc))].
+  intros H Hl Hn k'. pose proof (multitask_run_coherent ops k (multitask_set_MCoh _ _ H)) as Hc. split; [exact Hc|split; [exact (proj1 (MCoh_get_valid _ Hc))|]].
+  unfold k'. rewrite (multitask_run_get ops k Hn), (hyper_roundtrip_multitask hp0 k H Hl). reflexivity.
 Qed.
 
 Theorem valid_false_iff_bad hp : valid hp = false <-> exists h, In h hp /\ Bad h.
